@@ -56,6 +56,10 @@ impl PathBuf {
     #[verifier::external_body]
     pub fn is_file(&self) -> (r: bool) ensures r == self.is_regular() { unimplemented!() }
 }
+// lstat-style probe (does not follow a symbolic link): a different question from "is the file that would be opened a regular file"
+pub uninterp spec fn fs_regular_nofollow(abs_path: Seq<char>) -> bool;
+#[verifier::external_body]
+pub fn path_is_file_nofollow(p: &PathBuf) -> (r: bool) ensures r == fs_regular_nofollow(resolve(process_cwd(), p.text())) { unimplemented!() }
 impl Shell { pub uninterp spec fn cwd(&self) -> Seq<char>; }
 // R14 stubs.  Shell::absolute_path (shell/fs.rs): the path itself if empty or absolute, else working_dir().join(path)
 #[verifier::external_body]
